@@ -217,6 +217,42 @@ def main():
         seed = int(os.environ.get("VERIF_SEED", "1") or "1")
     tier = args.tier if args.tier in ("quick", "thorough") else "quick"
     work = os.path.join(VERIF, "work", args.prop + os.environ.get("VERIF_WORK_SUFFIX", ""))
+    # further parts of this property's check that need another test binary (own config, reported under this id)
+    part_rcs, part_cov = [], {}
+    if args.replay and cfg.get("extra_parts"):
+        try:
+            scen = json.load(open(args.replay)).get("scenario", "")
+        except Exception:  # noqa: BLE001
+            scen = ""
+        for part in cfg["extra_parts"]:
+            if scen in [sc["name"] for sc in CHECKS[part]["scenarios"]]:
+                sys.exit(subprocess.call([sys.executable, os.path.abspath(__file__), part, "--replay", args.replay]))
+    if cfg.get("extra_parts") and not args.replay and not args.determinism:
+        for part in cfg["extra_parts"]:
+            cmd = [sys.executable, os.path.abspath(__file__), part, "--tier", tier, "--seed", str(seed)]
+            if args.seconds is not None:
+                cmd += ["--seconds", str(max(5, args.seconds // 2))]
+            if args.workers is not None:
+                cmd += ["--workers", str(args.workers)]
+            if args.no_evidence:
+                cmd += ["--no-evidence"]
+            rc = subprocess.call(cmd)
+            sys.stdout.flush()
+            part_rcs.append(rc)
+            if not args.no_evidence:
+                pp = os.path.join(VERIF, "work", part + os.environ.get("VERIF_WORK_SUFFIX", ""), "evidence_part.json")
+                try:
+                    pe = json.load(open(pp))
+                    c = pe["coverage"]
+                    part_cov["part_" + part] = {k: c.get(k) for k in ("evaluations", "distinct_nontrivial", "rule", "scheduler_steps", "preemptions", "simulated_seconds",
+                                                                      "runs_per_hour", "faults_fired", "probes", "abstract_cover_count", "coverage_warnings",
+                                                                      "components_real", "components_stubbed")}
+                    part_cov["part_" + part]["samples"] = (c.get("samples") or [])[:1]
+                    part_cov["part_" + part]["assumptions"] = pe.get("assumptions")
+                    part_cov["part_" + part]["violations"] = pe.get("violations")
+                except Exception as e:  # noqa: BLE001
+                    if rc == 0:
+                        infra("part %s left no evidence: %s" % (part, e))
     t_start = time.time()
     binp, build_s, inst_log = build(cfg, work)
 
@@ -378,6 +414,7 @@ def main():
             "wall_s": round(wall, 2),
             "violations": len(seen_classes),
         }
+        ev["coverage"].update(part_cov)
         os.makedirs(os.path.join(VERIF, "evidence"), exist_ok=True)
         evpath = os.path.join(VERIF, "evidence", args.prop + ".json")
         if report != args.prop:
@@ -393,6 +430,10 @@ def main():
     for line in vio_lines:
         print(line)
     sys.stdout.flush()
+    if 1 in part_rcs:
+        exit_code = 1
+    elif exit_code == 0 and any(rc != 0 for rc in part_rcs):
+        exit_code = 2
     sys.exit(exit_code)
 
 
